@@ -125,6 +125,8 @@ pub struct Cx<'a, T: Elem + SatisfyTraits<Tr>, M: MemCaps, Tr: ?Sized + TrCaps> 
     base: *mut AnyVec<Tr, M>,
     n: usize,
     pub out: &'a mut Outcome,
+    /// identity a search finisher (`End::Find(j)` ...) looks for: the element at absolute index j before the operation
+    pub find_target: Option<Id>,
     _p: PhantomData<(&'a mut [AnyVec<Tr, M>], T)>,
 }
 
@@ -280,25 +282,74 @@ impl<'a, T: Elem + SatisfyTraits<Tr>, M: MemCaps, Tr: ?Sized + TrCaps> Cx<'a, T,
         if it.size_hint() != (n, Some(n)) {
             self.note(format!("size_hint()={:?} but len()={}", it.size_hint(), n));
         }
-        let probe = |e: &I::Item| e.downcast_ref::<T>().map(probe_val).unwrap_or(Val::Garbage(u64::MAX));
+        self.finish(it, end, |e: &I::Item| e.downcast_ref::<T>().map(probe_val).unwrap_or(Val::Garbage(u64::MAX)), true);
+    }
+
+    /// Finishes an iterator the way `end` says. `hold`: a yielded item must not outlive the iterator (erased drain/splice, the
+    /// known finding D16), so the finishers that return an item are called through `by_ref()` there; everywhere else the
+    /// iterator's own (possibly overridden) method is called.
+    pub fn finish<I>(&mut self, mut it: I, end: End, probe: impl Fn(&I::Item) -> Val, hold: bool)
+    where
+        I: DoubleEndedIterator + ExactSizeIterator,
+    {
+        let target = self.find_target.map(Val::Id);
+        let key = |x: Val| match x {
+            Val::Id(i) => i,
+            _ => 0,
+        };
+        let hit = |x: Val| Some(x) == target;
         match end {
-            End::Drop => drop(it),
-            End::Forget => std::mem::forget(it),
+            End::Drop => return drop(it),
+            End::Forget => return std::mem::forget(it),
             End::Count => {
                 let c = it.count();
-                self.len_report(c);
+                return self.len_report(c);
             }
             End::Last => {
-                // through by_ref(): the yielded handle must be looked at while its iterator is alive (an item that outlives its
-                // drain/splice iterator is the known C16 finding D16, not what this family is about)
-                let x = it.by_ref().last().map(|e| probe(&e)).unwrap_or(Val::None);
-                self.val(x);
-                drop(it);
+                let x = if hold { it.by_ref().last().map(|e| probe(&e)) } else { it.last().map(|e| probe(&e)) };
+                return self.val(x.unwrap_or(Val::None));
             }
-            End::Fold => it.fold((), |(), e| self.val(probe(&e))),
-            End::RFold => it.rfold((), |(), e| self.val(probe(&e))),
-            End::StepBy2 => it.step_by(2).for_each(|e| self.val(probe(&e))),
+            End::MaxByKey => {
+                let x = if hold { it.by_ref().max_by_key(|e| key(probe(e))).map(|e| probe(&e)) } else { it.max_by_key(|e| key(probe(e))).map(|e| probe(&e)) };
+                return self.val(x.unwrap_or(Val::None));
+            }
+            End::MinByKey => {
+                let x = if hold { it.by_ref().min_by_key(|e| key(probe(e))).map(|e| probe(&e)) } else { it.min_by_key(|e| key(probe(e))).map(|e| probe(&e)) };
+                return self.val(x.unwrap_or(Val::None));
+            }
+            End::Fold => return it.fold((), |(), e| self.val(probe(&e))),
+            End::RFold => return it.rfold((), |(), e| self.val(probe(&e))),
+            End::StepBy2 => return it.step_by(2).for_each(|e| self.val(probe(&e))),
+            End::ForEach => return it.for_each(|e| self.val(probe(&e))),
+            End::Find(_) => {
+                let x = it.find(|e| hit(probe(e))).map(|e| probe(&e));
+                self.val(x.unwrap_or(Val::None));
+            }
+            End::RFind(_) => {
+                let x = it.rfind(|e| hit(probe(e))).map(|e| probe(&e));
+                self.val(x.unwrap_or(Val::None));
+            }
+            End::Position(_) => {
+                let p = it.position(|e| hit(probe(&e)));
+                self.len_report(p.unwrap_or(usize::MAX));
+            }
+            End::RPosition(_) => {
+                let p = it.rposition(|e| hit(probe(&e)));
+                self.len_report(p.unwrap_or(usize::MAX));
+            }
+            End::Any(_) => {
+                let b = it.any(|e| hit(probe(&e)));
+                self.len_report(b as usize);
+            }
+            End::All(_) => {
+                let b = it.all(|e| !hit(probe(&e)));
+                self.len_report(b as usize);
+            }
         }
+        // after a search: what is left, by count and by identity
+        let n = it.len();
+        self.len_report(n);
+        it.fold((), |(), e| self.val(probe(&e)));
     }
 
     pub fn run_script_typed<I>(&mut self, mut it: I, script: &[Step], end: End)
@@ -327,21 +378,7 @@ impl<'a, T: Elem + SatisfyTraits<Tr>, M: MemCaps, Tr: ?Sized + TrCaps> Cx<'a, T,
         }
         let n = it.len();
         self.len_report(n);
-        match end {
-            End::Drop => drop(it),
-            End::Forget => std::mem::forget(it),
-            End::Count => {
-                let c = it.count();
-                self.len_report(c);
-            }
-            End::Last => {
-                let x = it.last().map(|e| probe_val(&e)).unwrap_or(Val::None);
-                self.val(x);
-            }
-            End::Fold => it.fold((), |(), e| self.val(probe_val(&e))),
-            End::RFold => it.rfold((), |(), e| self.val(probe_val(&e))),
-            End::StepBy2 => it.step_by(2).for_each(|e| self.val(probe_val(&e))),
-        }
+        self.finish(it, end, |e: &T| probe_val(e), false);
     }
 
     fn feed(&mut self, v: usize, at: Option<usize>, src: &Src) {
@@ -705,7 +742,7 @@ impl<'a, T: Elem + SatisfyTraits<Tr>, M: MemCaps, Tr: ?Sized + TrCaps> Cx<'a, T,
     fn exec_iter_script(&mut self, v: usize, how: IterHow, script: &[bool], skips: &[u8], clone_at: Option<usize>, end: End) {
         let bound = self.vec(v).len().saturating_add(4);
         macro_rules! steps {
-            ($it:ident, $probe:expr, $n:ident, $pre:block) => {{
+            ($it:ident, $probe:expr, $rprobe:expr, $n:ident, $pre:block) => {{
                 for ($n, back) in script.iter().enumerate() {
                     $pre
                     let l = $it.len();
@@ -730,19 +767,9 @@ impl<'a, T: Elem + SatisfyTraits<Tr>, M: MemCaps, Tr: ?Sized + TrCaps> Cx<'a, T,
                 }
                 let l = $it.len();
                 self.len_report(l);
-                match end {
-                    End::Drop | End::Forget => {}
-                    End::Count => {
-                        let c = $it.by_ref().count();
-                        self.len_report(c);
-                    }
-                    End::Last => {
-                        let x = $it.by_ref().last().map(|e| $probe(e)).unwrap_or(Val::None);
-                        self.val(x);
-                    }
-                    End::Fold => $it.by_ref().fold((), |(), e| self.val($probe(e))),
-                    End::RFold => $it.by_ref().rfold((), |(), e| self.val($probe(e))),
-                    End::StepBy2 => $it.by_ref().step_by(2).for_each(|e| self.val($probe(e))),
+                if !matches!(end, End::Drop | End::Forget) {
+                    // by value: the iterator's own (possibly overridden) bulk method runs
+                    self.finish($it, end, $rprobe, false);
                 }
             }};
         }
@@ -770,7 +797,7 @@ impl<'a, T: Elem + SatisfyTraits<Tr>, M: MemCaps, Tr: ?Sized + TrCaps> Cx<'a, T,
             IterHow::Iter | IterHow::IntoIterRef => {
                 let mut it = if how == IterHow::Iter { self.vec(v).iter() } else { (&*self.vec(v)).into_iter() };
                 let mut cl = None;
-                steps!(it, pref, n, {
+                steps!(it, pref, |e: &any_vec::element::ElementRef<Tr, M>| e.downcast_ref::<T>().map(probe_val).unwrap_or(Val::Garbage(u64::MAX)), n, {
                     if clone_at == Some(n) {
                         cl = Some(it.clone());
                     }
@@ -783,13 +810,13 @@ impl<'a, T: Elem + SatisfyTraits<Tr>, M: MemCaps, Tr: ?Sized + TrCaps> Cx<'a, T,
                     return;
                 }
                 let mut it = if how == IterHow::IterMut { self.vec(v).iter_mut() } else { self.vec(v).into_iter() };
-                steps!(it, pmut, n, {});
+                steps!(it, pmut, |e: &any_vec::element::ElementMut<Tr, M>| e.downcast_ref::<T>().map(probe_val).unwrap_or(Val::Garbage(u64::MAX)), n, {});
             }
             IterHow::TIter | IterHow::TIntoIterRef => {
                 let tv = self.vec(v).downcast_ref::<T>().expect("typed view of the right type");
                 let mut it = if how == IterHow::TIter { tv.iter() } else { tv.into_iter() };
                 let mut cl = None;
-                steps!(it, |e: &T| probe_val(e), n, {
+                steps!(it, |e: &T| probe_val(e), |e: &&T| probe_val(*e), n, {
                     if clone_at == Some(n) {
                         cl = Some(it.clone());
                     }
@@ -803,7 +830,7 @@ impl<'a, T: Elem + SatisfyTraits<Tr>, M: MemCaps, Tr: ?Sized + TrCaps> Cx<'a, T,
                 }
                 let mut tv = self.vec(v).downcast_mut::<T>().expect("typed view of the right type");
                 let mut it = if how == IterHow::TIterMut { tv.iter_mut() } else { tv.into_iter() };
-                steps!(it, |e: &mut T| probe_val(&*e), n, {});
+                steps!(it, |e: &mut T| probe_val(&*e), |e: &&mut T| probe_val(&**e), n, {});
             }
         }
     }
@@ -1206,8 +1233,18 @@ impl<T: Elem + SatisfyTraits<Tr>, M: MemCaps, Tr: ?Sized + TrCaps> DynRig for Ri
         out.lens.reserve(16);
         let n = self.vecs.len();
         let base = self.vecs.as_mut_ptr();
+        let find_target = match op {
+            Op::Drain { v, end, .. } | Op::Splice { v, end, .. } | Op::IterScript { v, end, .. } => end.index().and_then(|j| {
+                let av = &self.vecs[*v];
+                if av.len() > av.capacity() {
+                    return None;
+                }
+                av.downcast_ref::<T>().and_then(|tv| tv.as_slice().get(j).and_then(|e| e.probe().ok()))
+            }),
+            _ => None,
+        };
         let r = {
-            let mut cx: Cx<T, M, Tr> = Cx { base, n, out: &mut out, _p: PhantomData };
+            let mut cx: Cx<T, M, Tr> = Cx { base, n, out: &mut out, find_target, _p: PhantomData };
             monalloc::window_open();
             let r = catch_unwind(AssertUnwindSafe(|| cx.exec_inner(op)));
             monalloc::window_reset();
